@@ -121,6 +121,7 @@ PROPS = {
         "assumptions": ["argument strings are valid UTF-8 without XML-invalid control characters (encoding/xml would substitute U+FFFD)"],
     },
     "C04": {
+        "pf": True,
         "n": {"quick": 250, "thorough": 8000},
         "cone": ["Bytes", "BytesLemmas", "Regex", "Generated", "Channel", "Network", "NetworkAbs", "NetworkLemmas", "NetworkTwins", "Replay"],
         "rx": True,
@@ -256,6 +257,7 @@ PROPS = {
                       "without asking (the dialogue itself is C12's). User options layered on platform options: C19.",
     },
     "C18": {
+        "pf": True,
         "n": {"quick": 250, "thorough": 6000},
         "cone": ["Bytes", "Regex", "Generated", "Channel", "ChanTrace", "ChanTraceLemmas", "Replay"],
         "rx": True,
@@ -270,6 +272,7 @@ PROPS = {
         "level_note": "The recursion of handleCallbacks is bounded by fuel 64 in the model. Trusted: kernel, generated regex ASTs + RX, extraction, harness.",
     },
     "C10": {
+        "pf": True,
         "n": {"quick": 240, "thorough": 8000},
         "cone": ["Bytes", "Regex", "Generated", "Channel", "ChanTrace", "ChanTraceLemmas", "Replay"],
         "rx": True,
@@ -288,6 +291,7 @@ PROPS = {
                       "the model, in a timeout in the code); 'transport closed on failure' is observed, not modelled.",
     },
     "C11": {
+        "pf": True,
         "n": {"quick": 240, "thorough": 8000},
         "cone": ["Bytes", "Regex", "Generated", "Channel", "Network", "ChanTrace", "ChanTraceLemmas", "Replay"],
         "rx": True,
@@ -303,6 +307,7 @@ PROPS = {
                       "with redacted writes: exercised under C17/C19 sessions.",
     },
     "C12": {
+        "pf": True,
         "n": {"quick": 240, "thorough": 8000},
         "cone": ["Bytes", "Regex", "Generated", "Channel", "Network", "ChanTrace", "ChanTraceLemmas", "Replay"],
         "rx": True,
